@@ -7,7 +7,7 @@
    written header.  The composition is decided by the correspondence runs of the parser and writer models and by the
    literal round trip through the public API (oracle) on every generated graph. *)
 From Coq Require Import String Ascii List Bool Arith NArith ZArith.
-Require Import PyStr PyInt Sexp Xml M_C09 T_C09 M_C08 M_C08d T_C08 Ns Table M_Parse T_Parse M_Write T_Write XmlL M_ParseText M_WriteText T_WriteText T_ReadWritten.
+Require Import PyStr PyInt Sexp Xml M_C09 T_C09 M_C08 M_C08d T_C08 Ns Table M_Parse T_Parse M_Write T_Write XmlL M_ParseText M_WriteText T_WriteText T_ReadWritten T_Write2 T_C05.
 Import ListNotations.
 Open Scope char_scope.
 
@@ -37,6 +37,17 @@ Theorem C05_read_written : forall lm p w fname d, classes_ok p = true -> text_cl
                                      d_models := d_models d; d_aliases := d_aliases d; d_nodes := d_nodes d |}.
 Proof. exact read_written. Qed.
 
+(* the composition, for the identity of nodes: write namespace U, parse the written document in ANY parsing context - the rows are
+   exactly U's nodes, once each, in table order, with their class and their NodeId re-indexed to U's position in the parser's list *)
+Theorem C05_nodeids_roundtrip : forall E ns p w d k refs ns1 fo,
+  str_index (wp_uri w) (p_namespaces p) = Some k -> use_refs p w (Z.of_nat k) = Ok refs -> regular p k refs ->
+  (forall r, In r (p_nodes p) -> valid (nr_nodeid r) = true) ->
+  write_doc p w = Ok d -> parse_file E ns d = Ok (ns1, fo) ->
+  exists j, nth_error ns1 j = Some (wp_uri w) /\
+    map (fun r => (nr_cls r, nr_nodeid r)) (fo_nodes fo)
+    = map (fun r => (nr_cls r, with_ns (nr_nodeid r) (Z.of_nat j))) (filter (fun r => Z.eqb (nid_ns (nr_nodeid r)) (Z.of_nat k)) (p_nodes p)).
+Proof. exact nodeids_roundtrip. Qed.
+
 Print Assumptions C05_identifier_text.
 Print Assumptions C05_index_translation.
 Print Assumptions C05_shared_references_merge.
@@ -44,3 +55,4 @@ Print Assumptions C05_string_values.
 Print Assumptions C05_integer_values.
 Print Assumptions C05_written_header.
 Print Assumptions C05_read_written.
+Print Assumptions C05_nodeids_roundtrip.
